@@ -57,7 +57,7 @@ ShapeRef::~ShapeRef()
 void ShapeRef::moveAttachedConns(const Polygon& newPoly)
 {
     // Update positions of attached connector ends.
-    for (std::set<ConnEnd *>::iterator curr = m_following_conns.begin();
+    for (ConnEndPtrSet::iterator curr = m_following_conns.begin();
             curr != m_following_conns.end(); ++curr)
     {
         ConnEnd *connEnd = *curr;
